@@ -9,8 +9,16 @@ open CashewsVerif CashewsVerif.Proto CashewsVerif.Route CashewsVerif.Disable
 structure St where
   t : Table
   w : World
+  /-- decorated functions with overlapping calls: id ↦ (protected, state) -/
+  fns : List (Nat × Bool × CSt)
 
-def St.fresh : St := ⟨Table.empty, World.init true⟩
+def St.fresh : St := ⟨Table.empty, World.init true, []⟩
+
+def St.fn? (st : St) (fid : Nat) : Option (Bool × CSt) :=
+  (st.fns.find? fun x => x.1 == fid).map fun x => x.2
+
+def St.setFn (st : St) (fid : Nat) (prot : Bool) (cs : CSt) : St :=
+  { st with fns := (fid, prot, cs) :: st.fns.filter fun x => x.1 != fid }
 
 def parseStr? (s : String) : Option (List Nat) :=
   if s = "-" then some [] else allSome ((s.splitOn ".").map String.toNat?)
@@ -70,6 +78,27 @@ def parseFCmd? (name : String) (args : List String) : Option FCmd :=
     pure (.keyed c k)
   | _, _ => none
 
+def showPairs (ps : List (Nat × Nat)) : String :=
+  if ps.isEmpty then "-" else ",".intercalate (ps.map fun p => s!"{p.1}:{p.2}")
+
+/-- what the events since `old` did: calls that ended (call:execution), backend commands issued -/
+def showDelta (old new : CSt) : String :=
+  s!"done={showPairs (new.results.drop old.results.length)} calls={showCalls (new.calls.drop old.calls.length)}"
+
+def showStart (old new : CSt) : String :=
+  let what :=
+    if new.nc.length > old.nc.length then "NC"
+    else if new.results.length > old.results.length then
+      match new.results.getLast? with
+      | some p => s!"hit:{p.2}"
+      | none => "?"
+    else match new.flights.getLast? with
+      | some ⟨_, _, .bypass e⟩ => s!"bypass:{e}"
+      | some ⟨_, _, .own e _ _⟩ => s!"own:{e}"
+      | some ⟨_, _, .joined l⟩ => s!"join:{l}"
+      | none => "?"
+  s!"start={what} calls={showCalls (new.calls.drop old.calls.length)}"
+
 def parseTx? (s : String) : Option Bool :=
   if s = "0" then some false else if s = "1" then some true else none
 
@@ -98,6 +127,37 @@ def step (st : St) (line : String) : St × String :=
       | none => (st, "NC")
       | some d => (st, s!"execs={d.execs} calls={showCalls d.calls}")
     | _, _, _ => (st, "bad-op")
+  | ["cdef", fid, prot] =>
+    match fid.toNat?, parseTx? prot with
+    | some fid, some prot => (st.setFn fid prot CSt.init, "ok")
+    | _, _ => (st, "bad-op")
+  | ["cstart", fid, call, c, key] =>
+    match fid.toNat?, call.toNat?, c.toNat?, parseStr? key with
+    | some fid, some call, some c, some key =>
+      match st.fn? fid with
+      | none => (st, "bad-op")
+      | some (prot, cs) =>
+        let cs' := cstart st.t prot st.w cs call c key
+        (st.setFn fid prot cs', showStart cs cs')
+    | _, _, _, _ => (st, "bad-op")
+  | ["cfin", fid, call] =>
+    match fid.toNat?, call.toNat? with
+    | some fid, some call =>
+      match st.fn? fid with
+      | none => (st, "bad-op")
+      | some (prot, cs) =>
+        let cs' := cfinish cs call
+        (st.setFn fid prot cs', showDelta cs cs')
+    | _, _ => (st, "bad-op")
+  | ["cdrain", fid] =>
+    match fid.toNat? with
+    | some fid =>
+      match st.fn? fid with
+      | none => (st, "bad-op")
+      | some (prot, cs) =>
+        let cs' := cdrain cs
+        (st.setFn fid prot cs', showDelta cs cs' ++ s!" left={cs'.flights.length} execs={cs'.execs}")
+    | none => (st, "bad-op")
   | ["disable", c, p, cmds] =>
     match c.toNat?, parseStr? p, parseCmds? cmds with
     | some c, some p, some cmds =>
